@@ -325,6 +325,9 @@ def sampler_scenario(at):
                 bad = [tuple(r) for r in got[["a", "x"]].itertuples(index=False) if r[1] != fn(r[0])]
                 if bad:
                     return crashed, [f"recovery reap returned rows whose output is not the function's value at the row's arguments: {bad[:3]}"]
+        final = pd.read_pickle(name)
+        if len(final) > len(before) + 4:
+            return crashed, [f"the run's 4 samples were appended more than once: {len(before)} rows before, {len(final)} after the recovery"]
         return crashed, None
 
 
